@@ -32,8 +32,11 @@ namespace occa {
       typelessArray(),
       memory_(mem) {
 
-      memory_.setDtype(dtype::get<T>());
-      setupTypelessArray(memory_);
+      // An empty array is an uninitialized memory (device::malloc(0))
+      if (memory_.isInitialized()) {
+        memory_.setDtype(dtype::get<T>());
+        setupTypelessArray(memory_);
+      }
     }
     array(const array<T> &other) :
       typelessArray(other),
@@ -102,7 +105,7 @@ namespace occa {
       occa::memory prevMemory = memory_;
       memory_ = device.malloc<T>(size);
 
-      if (prevMemory.isInitialized()) {
+      if (prevMemory.isInitialized() && memory_.isInitialized()) {
         if (prevMemory.length() < memory_.length()) {
           prevMemory.copyTo(memory_);
         } else {
@@ -110,7 +113,8 @@ namespace occa {
         }
       }
 
-      setupTypelessArray(memory_);
+      // Keep the device when resizing to 0 entries (uninitialized memory)
+      setupTypelessArray(device, dtype::get<T>());
     }
 
     udim_t length() const {
